@@ -110,6 +110,20 @@ def check_string(s, status, segs):
                 x["clause"] = "Prefix:" + x["clause"]
                 dis.append(x)
     dis += soundness(p)
+    # every other public entry point that takes path data as a string is total in the same sense
+    for name, fn in (("insert", lambda q: q.insert(1, s)), ("append", lambda q: q.append(s)), ("extend", lambda q: q.extend(s)),
+                     ("setitem", lambda q: q.__setitem__(1, s)), ("iadd", lambda q: q.__iadd__(s)), ("add", lambda q: q + s),
+                     ("radd", lambda q: s + q)):
+        q = svg.Path("M 1,1 L 2,3 L 4,1")
+        try:
+            fn(q)
+        except ValueError:
+            pass
+        except engine.CaseTimeout:
+            raise
+        except BaseException as e:
+            dis.append({"clause": "Totality", "entry": name, "exc": type(e).__name__,
+                        "detail": "Path.%s with the data raised %s: %s" % (name, type(e).__name__, str(e)[:60])})
     for d in dis:
         d["s"] = s
         d["detail"] += "  [data %r]" % s
